@@ -275,6 +275,10 @@ func runC15(c c15case, rep *lib.Report) {
 			if rec.Panic == nil && (rec.Code < 400 || strings.Contains(rec.Body.String(), marker[:3])) {
 				rep.Violate("C15:oversized-response-delivered", fmt.Sprintf("%v: client got status %d and %d body bytes containing handler output", c, rec.Code, rec.Body.Len()), what())
 			}
+		} else if c.status < 100 || c.status > 999 {
+			// a status net/http refuses (its WriteHeader panics): however the buffer copes, the exchange ends with an
+			// error and only the temp-file obligation applies
+			rep.Count("responses_with_a_status_the_client_writer_refuses")
 		} else if rec.Panic == nil {
 			noBody := c.method == "HEAD" || c.status == 204 || c.status == 304 || c.hdr != 0
 			if c.size == 0 && !noBody {
@@ -295,6 +299,8 @@ func runC15(c c15case, rep *lib.Report) {
 				kind += ":over-limit"
 			case c.abort:
 				kind += ":handler-aborted"
+			case c.status < 100 || c.status > 999:
+				kind += ":status-refused-by-the-client-writer"
 			case c.method == "HEAD" || c.status == 204 || c.status == 304 || c.hdr != 0:
 				kind += ":bodiless-kind"
 			default:
@@ -348,6 +354,13 @@ func c15cases(tier string) []c15case {
 					out = append(out, c15case{side: "response", lim: l, size: size, chunk: 3, method: "POST", status: 500, retries: 1, clientBreaksAt: at})
 				}
 			}
+			for _, wp := range []int{0, 3} {
+				for _, status := range []int{99, 1000} {
+					for _, retries := range []int{0, 1} {
+						out = append(out, c15case{side: "response", lim: l, size: size, chunk: wp, method: "GET", status: status, retries: retries, clientBreaksAt: -1})
+					}
+				}
+			}
 			for wp := range writePatterns {
 				for _, method := range []string{"GET", "HEAD", "POST"} {
 					for _, status := range []int{200, 204, 304, 500} {
@@ -380,8 +393,8 @@ func c15cases(tier string) []c15case {
 func RunC15(tier string, sh lib.Shard, rep *lib.Report) {
 	cases := c15cases(tier)
 	rep.Bounds["cases"] = len(cases)
-	rep.Rule = "full product (memory threshold, maximum) in {(8,16),(16,16),(32,16),(8,unlimited)} x size {0,mem-1,mem,mem+1,max-1,max,max+1,2max} x request framing {declared, chunked 1/5, unknown length without chunking (HTTP/2 stream), declared length understating the body} / response write pattern {one, straddling mem, straddling max, bytewise} x method x response status {200,204,304,500} x header {-,Content-Length:0,Grpc-Status:1} x retries {0,1,2}, also for requests that ask for an upgrade which the handler declines; long-lived Buffer instances (one per side x limits x retries) serving their cases in sequence; private $TMPDIR per worker inspected after every exchange; non-trivial = exchanges that spilled to disk or exceeded a limit"
-	rep.Require("request_spills", "response_spills", "oversized_requests", "oversized_responses", "aborted_exchanges", "broken_client_connections")
+	rep.Rule = "full product (memory threshold, maximum) in {(8,16),(16,16),(32,16),(8,unlimited)} x size {0,mem-1,mem,mem+1,max-1,max,max+1,2max} x request framing {declared, chunked 1/5, unknown length without chunking (HTTP/2 stream), declared length understating the body} / response write pattern {one, straddling mem, straddling max, bytewise} x method x response status {200,204,304,500; 99 and 1000, which the client writer refuses} x header {-,Content-Length:0,Grpc-Status:1} x retries {0,1,2}, also for requests that ask for an upgrade which the handler declines; long-lived Buffer instances (one per side x limits x retries) serving their cases in sequence; private $TMPDIR per worker inspected after every exchange; non-trivial = exchanges that spilled to disk or exceeded a limit"
+	rep.Require("request_spills", "response_spills", "oversized_requests", "oversized_responses", "aborted_exchanges", "broken_client_connections", "responses_with_a_status_the_client_writer_refuses")
 	for i, c := range cases {
 		if !sh.Mine(i) {
 			continue
